@@ -276,16 +276,16 @@ TopoOK(s) ==
 (*   used : the variable is read by Run                                    *)
 (*   form : "single" var v = e | "blank" var _ = e | "multi" var v, w = e2 *)
 (* ----------------------------------------------------------------------- *)
-VarKinds == {"const", "funclit", "mapread", "call", "closurecall", "methodcall", "recv", "convcall",
+VarKinds == {"const", "funclit", "mapread", "call", "closurecall", "methodcall", "recv", "convcall", "namedfunccall",
              "assertpanic", "indexpanic", "divpanic", "nilderef", "slicearrpanic"}
 \* what evaluating the initialiser does in Go
 VarEffect(k) ==
   CASE k \in {"const", "funclit", "mapread"} -> "none"
-    [] k \in {"call", "closurecall", "methodcall", "convcall"} -> "print"
+    [] k \in {"call", "closurecall", "methodcall", "convcall", "namedfunccall"} -> "print"   \* namedfunccall: fv() with fv of a defined function type
     [] k = "recv" -> "recv"                     \* takes the element out of a package-level channel
     [] k \in {"assertpanic", "indexpanic", "divpanic", "nilderef", "slicearrpanic"} -> "panic"
 \* analysis.HasSideEffect: a call of a function (not a conversion), or a receive
-VarHasCallOrRecv(k) == k \in {"call", "closurecall", "methodcall", "recv", "convcall"}
+VarHasCallOrRecv(k) == k \in {"call", "closurecall", "methodcall", "recv", "convcall", "namedfunccall"}
 VarForms == {"single", "blank", "multi"}
 VarParams(kinds) == [kind : kinds, used : BOOLEAN, form : VarForms]
 VarOK(s) ==
